@@ -43,10 +43,20 @@ pub struct Sender {
 impl Error for TriggerError {}
 
 /// A receiving party of a trigger.
-#[derive(Clone, Debug)]
+#[derive(Debug)]
 pub struct Receiver {
     inner: Arc<TriggerInner>,
     slot: Option<usize>,
+}
+
+impl Clone for Receiver {
+    fn clone(&self) -> Self {
+        // The slot holds the waker of this receiver only, a copy must register its own.
+        Receiver {
+            inner: self.inner.clone(),
+            slot: None,
+        }
+    }
 }
 
 impl Receiver {
